@@ -5,7 +5,7 @@
  "enforce": ["crypto_aesctr_aesni_stream_wholeblocks"],
  "replace": ["crypto_aes_encrypt_block_aesni_m128i", "_mm_loadu_si128", "_mm_storeu_si128", "_mm_loadu_si64"],
  "annotate": ["crypto/crypto_aesctr_aesni.c", "crypto/crypto_aesctr_shared.c"],
- "defines": ["VERIF_HALLOC", "CPUSUPPORT_X86_AESNI=1"],
+ "defines": ["VERIF_HALLOC", "C02_FIXED_OBJ", "CPUSUPPORT_X86_AESNI=1"],
  "matrix": {"BUFMODE": [0, 1]},
  "models": ["models/x86_sse2.c"],
  "cflags": ["-msse2", "-maes"],
@@ -18,6 +18,7 @@
 }
 */
 #include "verif.h"
+#include "c02_x86intrin.h"
 #define C02_GHOST_DEFINE
 #include "c02_aes_ghost.h"
 #include "crypto/crypto_aesctr_aesni.c"
